@@ -70,7 +70,7 @@ func (c13) Classes() []sim.Class {
 		{Name: "truncation", Engine: "compiler", Quick: 32, Thorough: 600, Instrumented: true, RunTimeoutSec: 300, Batch: 1},
 		{Name: "read-faults", Engine: "compiler", Quick: 32, Thorough: 600, Instrumented: true, RunTimeoutSec: 300, Batch: 1},
 		{Name: "concurrent-writers", Engine: "compiler", Quick: 160, Thorough: 6000, Instrumented: true, RunTimeoutSec: 300},
-		{Name: "determinism-processes", Engine: "compiler", Quick: 24, Thorough: 800, Instrumented: true, RunTimeoutSec: 300},
+		{Name: "determinism-processes", Engine: "compiler", Quick: 24, Thorough: 800, Instrumented: true, RunTimeoutSec: 300, NeedsPIEWorker: true},
 		// entries of more than a megabyte (over a hundred thousand functions): every internal buffer is crossed
 		{Name: "large-entry", Engine: "compiler", Quick: 3, Thorough: 24, Instrumented: true, RunTimeoutSec: 600, Batch: 1},
 	}
@@ -400,7 +400,13 @@ func (c13) Run(t *tape.Tape, cfg sim.Config) (res sim.Result) {
 			gmp  string
 			junk int
 		}{{"1", 0}, {"7", 20000 + t.Choose(50000)}, {"16", 3}} {
-			cmd := exec.Command(os.Args[0], "child", "c13det", string(planTape), strconv.Itoa(v.junk))
+			self := os.Args[0]
+			if pie := os.Getenv("VERIF_PIE_WORKER"); pie != "" && i == 2 {
+				// another binary: the same sources linked position-independent, loaded at a random address
+				self = pie
+				res.Stat("probe.entry_compared_with_a_position_independent_binary", 1)
+			}
+			cmd := exec.Command(self, "child", "c13det", string(planTape), strconv.Itoa(v.junk))
 			cmd.Env = []string{"GOMAXPROCS=" + v.gmp, fmt.Sprintf("X%d=%d", i, v.junk), "TZ=UTC"}
 			out, err := cmd.CombinedOutput()
 			got := strings.TrimSpace(string(out))
